@@ -385,6 +385,65 @@ theorem handoff_by_number_default_filter (cfg : Forkable.Config) (hnew : cfg.mat
   obtain ⟨c', hr, _, hc⟩ := follows_run _ _ ⟨r0, []⟩ _ hf trivial hrun
   exact ⟨burst, c', hb, by rw [SC.runSB_filter]; exact hr, hc⟩
 
+/-- **End to end, hypotheses on the inputs only.** A hub whose forkable was started on a known LIB `r` and has since
+    been fed any history `h1`; a stream that read the merged blocks `fb` and now asks for block `n`, which the hub
+    retains at or below its LIB, the first block of the answer being the child of the last merged block; any later
+    history `h2` — all blocks drawn from one consistent block tree `U` whose LIB declarations name ancestors' heights.
+    Then the merged blocks, the hub's burst and everything the hub delivers afterwards form one sequence that the
+    push/pop consumer accepts, ending on the hub's chain and LIB. The forkable invariants are not assumed: they are
+    established from the initial state by `C01.history_all_invariants_consistent`. -/
+theorem handoff_end_to_end (cfg : Forkable.Config) (hnew : cfg.matches .new = true)
+    (hundo : cfg.matches .undo = true) (hirr : cfg.matches .irreversible = true)
+    (r : Ref) (hr : r.id ≠ "") (hroot : cfg.root = some (.exclusive r))
+    (U : Id → Option Blk) (hU : UOK U)
+    (hr1 : ∀ b, U b.id = some b → b.parent = r.id → r.num < b.num)
+    (hr2 : ∀ b, U b.id = some b → b.id = r.id → b.num = r.num)
+    (h1 : List Blk) (hin1 : ∀ b ∈ h1, U b.id = some b) (hL1 : Props.C01.LibHistOK cfg (Forkable.init cfg) h1)
+    (h : Blk) (seg : List Entry)
+    (hs : headSegment (runHistory cfg (Forkable.init cfg) h1).1 = some (h, seg))
+    (n : Nat) (hn : n ≤ (runHistory cfg (Forkable.init cfg) h1).1.db.libRef.num) (hex : ∃ e ∈ seg, e.blk.num = n)
+    (r0 : Id) (fb : List Blk) (hfile : linkedBlks r0 fb)
+    (hjoin : ∀ e, (seg.dropWhile (fun e => e.blk.num != n)).head? = some e → e.blk.parent = topOf r0 (fb.map (·.id)))
+    (h2 : List Blk) (hin2 : ∀ b ∈ h2, U b.id = some b)
+    (hL2 : Props.C01.LibHistOK cfg (runHistory cfg (Forkable.init cfg) h1).1 h2) :
+    ∃ burst P', blocksFromNum (runHistory cfg (Forkable.init cfg) h1).1 n = some burst ∧
+      (⟨r0, []⟩ : CS).run (fb.map (Resolver.fileEv .newIrreversible) ++ burst ++
+          (runHistory cfg (runHistory cfg (Forkable.init cfg) h1).1 h2).2) =
+        some ⟨(runHistory cfg (runHistory cfg (Forkable.init cfg) h1).1 h2).1.db.libRef.id, P'⟩ := by
+  have hI0 := Props.C01.init_inv cfg r hr hroot
+  have hJ0 := Props.C01.init_inv2 cfg r hroot U hr1 hr2
+  have hH0 : Props.C01.HeadU U (Forkable.init cfg) := by
+    intro l hl
+    have : (Forkable.init cfg).lastSent = none := by unfold Forkable.init; rw [hroot]
+    rw [this] at hl; cases hl
+  have hni0 : (Forkable.init cfg).includeInit = false := by unfold Forkable.init; rw [hroot]
+  obtain ⟨P, F, hI, hJ, hH⟩ := Props.C01.history_all_invariants_consistent cfg hnew hundo hirr U hU h1 [r.id]
+    (Forkable.init cfg) [] hI0 hJ0 hH0 hin1 hL1 (Or.inl hni0)
+  have hlast : (runHistory cfg (Forkable.init cfg) h1).1.lastSent = some h := by
+    unfold headSegment at hs
+    split at hs
+    · cases hs
+    · cases hl : (runHistory cfg (Forkable.init cfg) h1).1.lastSent with
+      | none => rw [hl] at hs; cases hs
+      | some l =>
+        rw [hl] at hs
+        simp only at hs
+        cases hc : (runHistory cfg (Forkable.init cfg) h1).1.db.completeSegment l.ref with
+        | mk o rr =>
+          rw [hc] at hs
+          cases o with
+          | none => cases hs
+          | some sg =>
+            cases rr with
+            | false => cases hs
+            | true =>
+              simp only [Option.some.injEq, Prod.mk.injEq] at hs
+              rw [hs.1]
+  obtain ⟨burst, P', hb, _, hrun, _⟩ := handoff_by_number_is_seamless cfg hnew hundo hirr U hU F _ P hI hJ h seg hs
+    (fun e he => Props.C01.head_num_of_invariants U hU F _ hJ hH h hlast e he)
+    n hn hex r0 fb hfile hjoin h2 hin2 hL2
+  exact ⟨burst, P', hb, hrun⟩
+
 end Seamless
 
 /-! Non-vacuity of `handoff_by_number_is_seamless`: a hub (known LIB `r`, ten final blocks kept) that has received
